@@ -479,13 +479,21 @@ def round_obligation(rep, prop, f, site, a, orders, th_s, scalar, clause="jac", 
     try:
         # the flush-to-zero regime makes the bound non-monotone in theta: take the worst over a ladder of rotation
         # magnitudes from the switch-over up to 0.1 (half-decade steps)
-        val, err, worst, th_at = None, -1.0, None, th_s
-        t = th_s
-        while t <= th_max or val is None:
-            v_, e_, w_ = R.bound(a, J.TH, t, orders, scalar)
-            if e_ / max(1.0, abs(v_)) > err / max(1.0, abs(val or 0.0)):
-                val, err, worst, th_at = v_, e_, w_, t
-            t *= 10 ** (0.1 if C.tier() == "thorough" else 0.5)   # thorough: tenth-decade ladder
+        def ladder(step):
+            val, err, worst, th_at = None, -1.0, None, th_s
+            t = th_s
+            while t <= th_max or val is None:
+                v_, e_, w_ = R.bound(a, J.TH, t, orders, scalar)
+                if e_ / max(1.0, abs(v_)) > err / max(1.0, abs(val or 0.0)):
+                    val, err, worst, th_at = v_, e_, w_, t
+                t *= 10 ** step
+            return val, err, worst, th_at
+        val, err, worst, th_at = ladder(0.5)
+        err_key = err          # the site (and with it the identity of a recorded finding) comes from the half-decade ladder in
+        if C.tier() == "thorough":     # both tiers; the thorough tier decides on a tenth-decade ladder in addition
+            fine = ladder(0.1)
+            if fine[1] / max(1.0, abs(fine[0])) > err / max(1.0, abs(val)):
+                val, err, worst, th_at = fine
         th_s = th_at
     except R.NotModelled as e:
         rep.observations.append("R-ROUND: %s not modelled (%s)" % (site, e))
@@ -493,7 +501,7 @@ def round_obligation(rep, prop, f, site, a, orders, th_s, scalar, clause="jac", 
     tol = round_tol * max(1.0, abs(val))
     # the order of magnitude of the bound is part of the site: a recorded finding does not cover the same cell getting worse
     import math
-    mag = "1e%+03d" % int(round(math.log10(err))) if err > 0 else "0"
+    mag = "1e%+03d" % int(round(math.log10(err_key))) if err_key > 0 else "0"
     rep.obligation(err <= tol, lambda: C.Finding(
         prop, "R-ROUND", "%s:~%s" % (site, mag),
         "evaluated in %s at |theta| = %.3g (worst of a half-decade ladder from its switch-over up to 0.1) the closed-form arm has a first-order rounding-error bound of %.2e "
